@@ -1,6 +1,7 @@
 //! aquatic_verif_rt: the seams aquatic links against under `--cfg aquatic_verif`.
 //! Everything the trackers would get from the OS — time, threads, signals, sockets, files,
 //! entropy, lock scheduling — is served from here under the simulator's control.
+pub mod alloc;
 pub mod engine;
 pub mod fault;
 pub mod fs;
@@ -19,5 +20,7 @@ pub fn reset_all(entropy_seed: u64) {
     signal::reset();
     fault::clear();
     rng::reseed(entropy_seed);
+    let _ = alloc::take_excess();
+    let _ = alloc::take_max();
     time::set_manual_ns(0);
 }
